@@ -86,6 +86,12 @@ inductive Op
   | dev (d : Nat) (code : Nat)       -- control event `code` for device number `d`
   | swap (d1 d2 : Nat)               -- shot group rotation over two shots: their states change places
   | drain | endGame
+  | modeStop                         -- the game mode is stopped by a stop event in the middle of a ball
+  | modeStart                        -- a start request for the game mode while a player is up (any time between turn
+                                     -- start and turn end, the ball itself may be over): binds to the current player
+  | drainPre                         -- a drain during which a start request arrives after the ball ended but before the
+                                     -- turn ended: the mode restarts bound to the player who is still up, and stops
+                                     -- again when that turn ends
   deriving DecidableEq, Repr
 
 /-- `Player.__init__`: index, number, the configured initial values, score — no events yet -/
@@ -174,6 +180,21 @@ def step (c : Cfg) (s : St) : Op → St × List Ev
       ({ players := [], cur := 0, dev := none }, [])
     else turnStart c s0 (if s0.cur + 1 < s0.players.length then s0.cur + 1 else 0)
   | .endGame => ({ players := [], cur := 0, dev := none }, [])
+  | .modeStop => ({ s with dev := none }, [])
+  | .modeStart =>
+    if s.players = [] then (s, [])                 -- no game: refused
+    else match s.dev with
+      | some _ => (s, [])                          -- already active
+      | none => (modeStart c s s.cur, [])
+  | .drainPre =>
+    if s.players = [] then (s, []) else
+    let s0 := modeStart c { s with dev := none } s.cur     -- stopped at ball end, restarted for the same player
+    let me := varsOf s0 s0.cur
+    if intVar me "extra_balls" ≠ 0 then
+      setOn s0 s0.cur "extra_balls" (.int (intVar me "extra_balls" - 1))     -- still running: no reload
+    else if intVar me "ball" ≥ c.ballsPerGame ∧ s0.cur + 1 = s0.players.length then
+      ({ players := [], cur := 0, dev := none }, [])
+    else turnStart c { s0 with dev := none } (if s0.cur + 1 < s0.players.length then s0.cur + 1 else 0)
 
 def run (c : Cfg) : St → List Op → St
   | s, [] => s
@@ -286,6 +307,9 @@ def parseOp : List String → Option Op
   | ["swap", a, b] => do pure (.swap (← a.toNat?) (← b.toNat?))
   | ["drain"] => some .drain
   | ["endgame"] => some .endGame
+  | ["modestop"] => some .modeStop
+  | ["modestart"] => some .modeStart
+  | ["drainpre"] => some .drainPre
   | _ => none
 
 def driverStep (cs : Cfg × St) (line : String) : (Cfg × St) × String :=
